@@ -564,11 +564,19 @@ class UniqueVariableNamesChecker(ValidationVisitor):
     named.
     """
 
-    def enter_operation_definition(self, _node):
+    def __init__(self, schema, type_info):
+        super(UniqueVariableNamesChecker, self).__init__(schema, type_info)
         self._variables = set()  # type: Set[str]
+
+    def enter_operation_definition(self, _node):
+        self._variables = set()
 
     def leave_operation_definition(self, _node):
         self._variables.clear()
+
+    # Fragments can define variables too (experimental_fragment_variables).
+    enter_fragment_definition = enter_operation_definition
+    leave_fragment_definition = leave_operation_definition
 
     def enter_variable_definition(self, node):
         name = node.variable.name.value
